@@ -22,6 +22,66 @@ var TypeMap = map[string]string{
 	"float64": "float64",
 }
 
+const (
+	intClass   = 1
+	uintClass  = 2
+	floatClass = 3
+)
+
+//numberClass maps a TypeMap value to its numeric class
+func numberClass(typeName string) int {
+	switch typeName {
+	case "int", "int8", "int16", "int32", "int64":
+		return intClass
+	case "uint", "uint8", "uint16", "uint32", "uint64":
+		return uintClass
+	}
+	return floatClass
+}
+
+func numberToFloat(v reflect.Value, class int) float64 {
+	switch class {
+	case intClass:
+		return float64(v.Int())
+	case uintClass:
+		return float64(v.Uint())
+	}
+	return v.Float()
+}
+
+//compareNumbers orders two numbers: integers are compared as integers, exactly, over the whole
+//64-bit range (signed against unsigned too); as soon as a float is involved the comparison is made in float64
+func compareNumbers(lv reflect.Value, lc int, rv reflect.Value, rc int) (lt, eq, gt bool) {
+	if lc == intClass && rc == intClass {
+		l, r := lv.Int(), rv.Int()
+		return l < r, l == r, l > r
+	}
+
+	if lc == uintClass && rc == uintClass {
+		l, r := lv.Uint(), rv.Uint()
+		return l < r, l == r, l > r
+	}
+
+	if lc == intClass && rc == uintClass {
+		l, r := lv.Int(), rv.Uint()
+		if l < 0 {
+			return true, false, false
+		}
+		return uint64(l) < r, uint64(l) == r, uint64(l) > r
+	}
+
+	if lc == uintClass && rc == intClass {
+		l, r := lv.Uint(), rv.Int()
+		if r < 0 {
+			return false, false, true
+		}
+		return l < uint64(r), l == uint64(r), l > uint64(r)
+	}
+
+	l, r := numberToFloat(lv, lc), numberToFloat(rv, rc)
+	return l < r, l == r, l > r
+}
+
 type Expression struct {
 	SourceCode
 	ExpressionLeft     *Expression
@@ -172,50 +232,26 @@ func (e *Expression) Evaluate(dc *context.DataContext, Vars map[string]reflect.V
 		//data compare
 		if l, ok1 := TypeMap[tlv.Kind().String()]; ok1 {
 			if r, ok2 := TypeMap[trv.Kind().String()]; ok2 {
-				var ll float64
-				switch l {
-				case "int", "int8", "int16", "int32", "int64":
-					ll = float64(flv.Int())
-					break
-				case "uint", "uint8", "uint16", "uint32", "uint64":
-					ll = float64(flv.Uint())
-					break
-				case "float32", "float64":
-					ll = flv.Float()
-					break
-				}
-
-				var rr float64
-				switch r {
-				case "int", "int8", "int16", "int32", "int64":
-					rr = float64(frv.Int())
-					break
-				case "uint", "uint8", "uint16", "uint32", "uint64":
-					rr = float64(frv.Uint())
-					break
-				case "float32", "float64":
-					rr = frv.Float()
-					break
-				}
+				lt, eq, gt := compareNumbers(flv, numberClass(l), frv, numberClass(r))
 
 				switch e.ComparisonOperator {
 				case "==":
-					b = reflect.ValueOf(ll == rr)
+					b = reflect.ValueOf(eq)
 					break
 				case "!=":
-					b = reflect.ValueOf(ll != rr)
+					b = reflect.ValueOf(!eq)
 					break
 				case ">":
-					b = reflect.ValueOf(ll > rr)
+					b = reflect.ValueOf(gt)
 					break
 				case "<":
-					b = reflect.ValueOf(ll < rr)
+					b = reflect.ValueOf(lt)
 					break
 				case ">=":
-					b = reflect.ValueOf(ll >= rr)
+					b = reflect.ValueOf(gt || eq)
 					break
 				case "<=":
-					b = reflect.ValueOf(ll <= rr)
+					b = reflect.ValueOf(lt || eq)
 					break
 				default:
 					return reflect.ValueOf(nil), errors.New(fmt.Sprintf("line %d, column %d, code: %s, Can't be recognized ComparisonOperator: %s", e.LineNum, e.Column, e.Code, e.ComparisonOperator))
